@@ -1429,10 +1429,31 @@ impl VtCtx {
         self.add_props_with(handle, props, re);
     }
 
+    /// A span's property is updated: the first key of an earlier attachment to the same target is
+    /// used again, with a value of its own (properties are a list, not a map: both pairs are
+    /// delivered, in the order they were attached).
+    fn reuse_key(w: &mut World, target: ARef, props: &mut Vec<(String, String)>) {
+        if props.is_empty() || w.t % 3 != 0 {
+            return;
+        }
+        let earlier = w.h.atts.iter().rev().find_map(|a| match (&a.kind, a.target == target) {
+            (AKind::Props(ps), true) => ps.first().map(|p| p.0.clone()),
+            _ => None,
+        });
+        if let Some(k) = earlier {
+            let u = w.uniq();
+            props[0].0 = k;
+            props[0].1 = format!("{}#{}", props[0].1, u);
+            w.h.label("property_key_attached_again");
+        }
+    }
+
     pub fn add_props_with(&mut self, handle: Option<u16>, props: Vec<(String, String)>, re: &[Mini]) {
+        let mut props = props;
         match handle {
             Some(hs) => {
                 let Some(idx) = Self::pick_span(&mut self.w(), hs) else { return };
+                Self::reuse_key(&mut self.w(), ARef::Span(idx), &mut props);
                 {
                     let mut w = self.w();
                     let d = Self::has_dup_units(&w.h.spans[idx].items);
@@ -1491,6 +1512,17 @@ impl VtCtx {
                     let d = Self::top_scope_dup(&w, self.id);
                     if self.excluded_dup(&mut w, d) {
                         return;
+                    }
+                }
+                {
+                    let mut w = self.w();
+                    let vt = self.id;
+                    if let Some(sc) = Self::top_scope(&w, vt) {
+                        let target = match w.h.scopes[sc].open.last() {
+                            Some(l) => ARef::Local(*l),
+                            None => ARef::ScopeRoot(sc),
+                        };
+                        Self::reuse_key(&mut w, target, &mut props);
                     }
                 }
                 let t0 = self.w().tick();
